@@ -22,6 +22,45 @@ func H_C18_ReadOnly() {
 	keys := [][]byte{{'a'}, {'b'}, {'c'}}
 	vals := [][]byte{{vrt.Byte("v0")}, nil, {vrt.Byte("v2")}}
 	vWriteTable(dir, keys, vals, recordio.CompressionTypeSnappy, recordio.CompressionTypeNone, 64)
+	if !vrt.Symbolic() {
+		// natively (race detector build), whatever the vector says: tables with the other data compression types
+		// read by several goroutines at once - the real compressors only run natively (gzip and lzw are contract
+		// stand-ins under the engine), so state they share between calls can only be seen here
+		for ci, comp := range []int{recordio.CompressionTypeGZIP, recordio.CompressionTypeLzw, recordio.CompressionTypeNone} {
+			cdir := fs.Path("c" + string(rune('0'+ci)))
+			fs.MkdirAll(cdir)
+			cvals := [][]byte{{1, 2, 3, 4, 5, 6, 7, 8}, nil, {9, 9, 9, 9, 9, 9, 9, 9, 9}}
+			vWriteTable(cdir, keys, cvals, comp, recordio.CompressionTypeNone, 64)
+			cr, err := NewSSTableReader(ReadBasePath(cdir), ReadBufferSizeBytes(16))
+			vrt.Assert(err == nil, "readonly/open-no-error")
+			cm, err := recordio.NewMemoryMappedReaderWithPath(cdir + "/" + DataFileName)
+			vrt.Assert(err == nil && cm.Open() == nil, "readonly/mmap-open")
+			var wg sync.WaitGroup
+			for g := 0; g < 4; g++ {
+				wg.Add(1)
+				go func(g int) {
+					defer wg.Done()
+					for i := 0; i < 100; i++ {
+						k := keys[(i+g)%3]
+						got, err := cr.Get(k)
+						want := cvals[(i+g)%3]
+						if want != nil {
+							vrt.Assert(err == nil && vrt.EqBytes(got, want), "readonly/concurrent-get-returns-the-single-threaded-answer")
+						}
+						_, _ = cr.Contains(k)
+						if it, err := cr.ScanRange(keys[0], keys[2]); err == nil {
+							it.Next()
+						}
+						_, _ = cm.ReadNextAt(recordio.FileHeaderSizeBytes)
+						_, _, _ = cm.SeekNext(uint64(recordio.FileHeaderSizeBytes + i%20))
+					}
+				}(g)
+			}
+			wg.Wait()
+			cr.Close()
+			cm.Close()
+		}
+	}
 
 	which := vrt.Choose("object", 3)
 	switch which {
